@@ -131,7 +131,10 @@ CHECKS = {
               "and globals byte for byte over hostile names / prefixes, constructor run through its branches; the EnvWizard copy of the dump "
               "generator (environ/dumpers.py) is tied to the GenDump model modulo a stated substitution (sixth call argument / closure key), "
               "so C15_gendump_well_scoped covers it. For "
-              "the v1 load generator the statement for every class is carried by the oracle (sampled), not by a theorem"),
+              "the v1 load generator the statement for every class is carried by the oracle (sampled), not by a theorem. The renaming oracle "
+              "is also run over histories of use (harness/props/c15_hist.py): nested classes with their own Meta loaded / dumped on "
+              "their own before and after the root, x Meta.recursive = False, x one __name__ for several definitions and names of the "
+              "form <shared name><number>, both engines"),
         technique='Lean 4 proof over quoting / naming models and over text-level models of the dump-function, default load-function and EnvWizard constructor generators (scoping theorems for every class, byte-for-byte correspondence with the generated source) + tables regenerated from generated code + renaming-equivariance oracle', ref='4 C15'),
     'C16': dict(
         text=("Lean theorems over a model of the property_wizard metaclass, dataclass field collection and the setter wrapper: field "
